@@ -7,6 +7,8 @@ ID = "C03"
 HARNESSES = [
     dict(name="pppoe", pkg="./internal/pppoe/", test="TestVerifC03PPPoE", timeout=900,
          files=[("internal/pppoe/zz_verif_c03_pppoe_test.go", "harness/C03/zz_verif_c03_pppoe_test.go")]),
+    dict(name="ipoe", pkg="./internal/ipoe/", test="TestVerifC03IPoE", timeout=900,
+         files=[("internal/ipoe/zz_verif_c03_ipoe_test.go", "harness/C03/zz_verif_c03_ipoe_test.go")]),
 ]
 VARIANTS = ["repaired", "defective"]
 MODEL_NEEDS_IMPL = True   # only for the FSM table flavour reported by the harness (see notes/C03.md)
@@ -16,12 +18,18 @@ RULE = ("pppoe: (a) systematic: each of 12 prefixes reaching a distinct phase/FS
         "protocols, AAA accept/accept+static/reject/error for request ordinals {empty,1,2,3,unknown}, 4 timers, PADT, dead "
         "peer, dataplane completion, re-open) x 3 probe suffixes; (b) random walks over the same alphabet, 1-3 "
         "subscribers, pool of 0-2 addresses, biased towards progress. "
+        "ipoe: 15 prefixes (nothing, pending by DISCOVER/REQUEST/SOLICIT/all four, approved, approved with late packets, "
+        "created, bound v4/v6/both, rejected, second attempt, released, dataplane add failed) x every event (DISCOVER, "
+        "REQUEST, RELEASE good/spoofed, server-sourced OFFER/ACK/NAK, SOLICIT, REQUEST6, RENEW, RELEASE6, AAA accept/reject/"
+        "error for the current / an earlier / an unknown session id, dataplane completion ok/fail) x 3 probes, all event "
+        "pairs after each prefix, and random walks with 1-3 subscribers and 1-3 IPv4 addresses. "
         "Non-trivial: a case in which at least one AAA answer is delivered and at least one service output or one "
         "gated (dropped) client packet occurs. Distinct: by case text.")
 TRUSTED = ["PPP option contents are abstracted to ack/nak/reject quality; addresses to {none,pool,static,fallback}",
            "timers are events: FSM.Timeout()/handleCHAPTimeout() are called by the harness, real timers never fire",
            "one handler at a time (the per-packet goroutines of the real receive loops are sequentialised)"]
-ASSUMPTIONS = ["AAA request ids are unique (uuid) — the model numbers them 1,2,3...",
+ASSUMPTIONS = ["ipoe: unified session mode, DHCP server mode, IA_NA pool never exhausted (16 addresses)",
+               "AAA request ids are unique (uuid) — the model numbers them 1,2,3...",
                "LAC hand-off (lacTrigger) and session restore/HA paths are not exercised"]
 
 
@@ -142,8 +150,74 @@ def gen_pppoe(rng, tier, budget):
     return cases
 
 
+# ------------------------------------------------------------------ ipoe
+IEV = ["D", "R", "S", "Q", "N", "X"]
+
+
+def ipoe_alphabet(i=0):
+    evs = ["%s:%d" % (e, i) for e in IEV] + ["L:%d:ok" % i, "L:%d:bad" % i]
+    evs += ["Y:%d:%s" % (i, k) for k in ("offer", "ack", "nak")]
+    evs += ["a:%d:%s:%s" % (i, r, k) for r in ("cur", "old", "unk") for k in ("acc", "rej", "err")]
+    evs += ["v:ok", "v:fail"]
+    return evs
+
+
+def ipoe_prefixes():
+    return {
+        "none": [],
+        "pending_d": ["D:0"],
+        "pending_r": ["R:0"],
+        "pending_s": ["S:0"],
+        "pending_all": ["D:0", "R:0", "S:0", "Q:0"],
+        "approved": ["D:0", "a:0:cur:acc"],
+        "approved_late": ["D:0", "a:0:cur:acc", "D:0", "R:0", "S:0", "Q:0"],
+        "created": ["D:0", "a:0:cur:acc", "v:ok"],
+        "bound4": ["D:0", "a:0:cur:acc", "v:ok", "R:0"],
+        "bound46": ["D:0", "a:0:cur:acc", "v:ok", "R:0", "S:0", "Q:0"],
+        "bound6": ["S:0", "a:0:cur:acc", "v:ok", "Q:0"],
+        "rejected": ["D:0", "a:0:cur:rej"],
+        "second": ["D:0", "a:0:cur:rej", "D:0"],
+        "released": ["D:0", "a:0:cur:acc", "v:ok", "R:0", "L:0:ok"],
+        "addfail": ["D:0", "a:0:cur:acc", "v:fail"],
+    }
+
+
+IPROBES = [["D:0", "R:0"], ["S:0", "Q:0", "v:ok", "D:0"], ["a:0:cur:acc", "v:ok", "D:0", "R:0", "L:0:ok", "X:0"]]
+
+
+def gen_ipoe(rng, tier, budget):
+    cases = []
+    for name, p in ipoe_prefixes().items():
+        for e in ipoe_alphabet():
+            for pr in IPROBES:
+                cases.append("ipoe 2 16 " + " ".join(p + [e] + pr))
+            for e2 in ipoe_alphabet():
+                cases.append("ipoe 2 16 " + " ".join(p + [e, e2, "D:0", "R:0"]))
+    n = (budget or 2500) if tier == "quick" else (budget or 40000)
+    for _ in range(n):
+        ns = rng.choice([1, 1, 2, 2, 3])
+        p4 = rng.choice([1, 2, 2, 3])
+        L = rng.randint(3, 26)
+        evs = []
+        for _ in range(L):
+            i = rng.randrange(ns)
+            r = rng.random()
+            if r < 0.45:
+                evs.append("%s:%d" % (rng.choice(["D", "D", "R", "R", "S", "Q", "N", "X"]), i))
+            elif r < 0.52:
+                evs.append("L:%d:%s" % (i, rng.choice(["ok", "ok", "bad"])))
+            elif r < 0.80:
+                evs.append("a:%d:%s:%s" % (i, rng.choice(["cur"] * 6 + ["old", "unk"]), rng.choice(["acc"] * 4 + ["rej", "err"])))
+            elif r < 0.95:
+                evs.append(rng.choice(["v:ok"] * 5 + ["v:fail"]))
+            else:
+                evs.append("Y:%d:%s" % (i, rng.choice(["offer", "ack", "nak"])))
+        cases.append("ipoe %d 16 " % p4 + " ".join(evs))
+    return cases
+
+
 def gen_cases(rng, tier, budget):
-    return gen_pppoe(rng, tier, budget)
+    return gen_pppoe(rng, tier, budget) + gen_ipoe(rng, tier, budget)
 
 
 # ------------------------------------------------------------------ verdict helpers
@@ -156,7 +230,14 @@ def nontrivial(case, out):
     t = case.split()
     if t[0] == "pppoe":
         return any(e.startswith("a:") for e in t[2:]) and ("I2" in out or "V2" in out or "|lA" in out)
+    if t[0] == "ipoe":
+        return any(e.startswith("a:") for e in t[3:]) and ("OFFER" in out or "ACK" in out or "ADV" in out or "f1" in out)
     return True
+
+
+def events(case):
+    t = case.split()
+    return t[3:] if t[0] == "ipoe" else t[2:]
 
 
 def first_div(a, b):
@@ -170,7 +251,7 @@ def first_div(a, b):
 def classify(case, impl, model):
     if "MON:VIOLATION" in impl:
         k = first_div(impl, model)
-        ev = case.split()[2:]
+        ev = events(case)
         return "P", ("service output for a subscriber whose current attempt has no AAA accept (monitor on the implementation's "
                      "own trace: %s); first difference from the model at step %d (%s): impl=%r model=%r" %
                      (impl.rsplit("MON:", 1)[-1], k, ev[k] if k < len(ev) else "end",
@@ -178,7 +259,7 @@ def classify(case, impl, model):
     if impl.startswith("panic") or " panic:" in impl or impl == "hang":
         return "P", "handler crashed or hung: %r" % impl[-200:]
     k = first_div(impl, model)
-    ev = case.split()[2:]
+    ev = events(case)
     return "G", "step %d (%s): impl=%r model=%r" % (k, ev[k] if k < len(ev) else "end",
                                                    steps(impl)[k] if k < len(steps(impl)) else "",
                                                    steps(model)[k] if k < len(steps(model)) else "")
@@ -202,12 +283,25 @@ def signature(case, impl, models):
             if len(b) > 2 and len(a) > 2 and b[2] == "9" and a[2] != "9":
                 return "pppoe-lcp-down-no-reset"
         return "pppoe-unexplained"
+    if t[0] == "ipoe":
+        # repaired ignores an answer when no request is in flight; today's code applies it.  The effect may
+        # only become visible later (a fresh allocator context), so look for such an answer up to the divergence.
+        ev = t[3:]
+        sd = steps(dfc)
+        for j in range(min(k, len(ev) - 1) + 1):
+            if ev[j].startswith("a:") and ev[j].split(":")[2] == "cur":
+                i = int(ev[j].split(":")[1])
+                before = sd[j - 1].split("|")[1].split(",")[i] if j > 0 else "-"
+                if before.startswith("e1") and "f0" in before:
+                    return "ipoe-aaa-answer-without-request"
+        return "ipoe-unexplained"
     return "unexplained"
 
 
 def shrink(case):
     t = case.split()
-    head, ev = t[:2], t[2:]
+    nh = 3 if t[0] == "ipoe" else 2
+    head, ev = t[:nh], t[nh:]
     for i in range(len(ev)):
         yield " ".join(head + ev[:i] + ev[i + 1:])
     if len(ev) > 6:
@@ -217,8 +311,20 @@ def shrink(case):
 def distribution(cases, impl):
     d = {"pppoe_cases": 0, "events": 0, "aaa_answers": 0, "aaa_taken": 0, "frames": 0, "timers": 0,
          "reached_network": 0, "reached_open": 0, "monitor_violations": 0, "gated_ncp_frames": 0, "panics": 0}
+    d.update({"ipoe_cases": 0, "ipoe_events": 0, "ipoe_aaa": 0, "ipoe_offers": 0, "ipoe_acks": 0, "ipoe_replies": 0,
+              "ipoe_monitor_violations": 0, "ipoe_gated": 0})
     for c, o in zip(cases, impl):
         t = c.split()
+        if t[0] == "ipoe" and o is not None:
+            d["ipoe_cases"] += 1
+            d["ipoe_events"] += len(t) - 3
+            d["ipoe_aaa"] += sum(e.startswith("a:") for e in t[3:])
+            d["ipoe_offers"] += o.count("OFFER")
+            d["ipoe_acks"] += o.count("ACK")
+            d["ipoe_replies"] += o.count("REPLY")
+            d["ipoe_monitor_violations"] += ("MON:VIOLATION" in o)
+            st = steps(o)
+            d["ipoe_gated"] += sum(1 for k, e in enumerate(t[3:]) if k < len(st) and e[0] in "DRSQN" and st[k].split("|")[0] == "")
         if t[0] != "pppoe" or o is None:
             continue
         d["pppoe_cases"] += 1
